@@ -163,13 +163,17 @@ func walletBinary(name string) (string, error) {
 	return walletPath, walletErr
 }
 
+// walletTimeout bounds one run of the wallet binary; the child is killed when it expires (exec.CommandContext) and
+// the case fails: a wallet that neither answers nor refuses is a violation, and no process may be left behind.
+const walletTimeout = 30 * time.Second
+
 type runResult struct {
 	stdout, stderr string
 	code           int
 }
 
 func runWallet(bin, dir string, args ...string) (runResult, error) {
-	ctx, cancel := context.WithTimeout(context.Background(), 5*time.Minute)
+	ctx, cancel := context.WithTimeout(context.Background(), walletTimeout)
 	defer cancel()
 	cmd := exec.CommandContext(ctx, bin, args...)
 	cmd.Dir = dir
@@ -183,6 +187,9 @@ func runWallet(bin, dir string, args ...string) (runResult, error) {
 		if ee, ok := err.(*exec.ExitError); ok && ctx.Err() == nil {
 			res.code = ee.ExitCode()
 			return res, nil
+		}
+		if ctx.Err() != nil {
+			return res, fmt.Errorf("the wallet did not finish within %v (a normal run takes some 10 ms) and was killed: wallet %s\nstdout: %.600s\nstderr: %.600s", walletTimeout, strings.Join(args, " "), res.stdout, res.stderr)
 		}
 		return res, fmt.Errorf("running the wallet: %v", err)
 	}
@@ -756,6 +763,10 @@ func checkCase(c txCase) (info caseInfo, err error) {
 		if err != nil {
 			return info, fmt.Errorf("%v: %s", err, res)
 		}
+		if got == nil && c.RFC6979 && c.MinSig && res.code != 0 {
+			info.outcome = "refused_minsig_with_rfc6979"
+			return info, nil
+		}
 		if got == nil {
 			return info, fmt.Errorf("-raw wrote no transaction: %s", res)
 		}
@@ -889,7 +900,7 @@ func checkCase(c txCase) (info caseInfo, err error) {
 		return info, fmt.Errorf("%v: %s", err, res)
 	}
 	unspentAfter, _ := os.ReadFile(filepath.Join(dir, "balance", "unspent.txt"))
-	if signAddr != "" {
+	if signAddr != "" && !(c.RFC6979 && c.MinSig && got == nil) { // (that combination is refused before anything is signed)
 		// the message signature printed before the transaction is made: it must recover the key of that address
 		k := keys[((*c.SignKey%len(keys))+len(keys))%len(keys)]
 		if e := checkMessageSignature(res.stdout, c.Msg, k.pub); e != nil {
@@ -900,7 +911,9 @@ func checkCase(c txCase) (info caseInfo, err error) {
 
 	if got == nil {
 		// nothing written
-		if !invalidRequest && need <= sureOwned {
+		if c.RFC6979 && c.MinSig {
+			info.outcome = "refused_minsig_with_rfc6979"
+		} else if !invalidRequest && need <= sureOwned {
 			info.outcome = "refused_other"
 		} else {
 			info.outcome = "refused_insufficient"
@@ -1216,8 +1229,10 @@ func genCase(t *rapid.T) txCase {
 	c.TxFn = rapid.Bool().Draw(t, "txfn")
 	c.RFC6979 = rapid.IntRange(0, 2).Draw(t, "rfc6979") == 0
 	if !c.RFC6979 {
-		// -minsig re-signs until R and S are short; with deterministic nonces that cannot make progress
 		c.MinSig = rapid.IntRange(0, 3).Draw(t, "minsig") == 0
+	} else if rapid.IntRange(0, 9).Draw(t, "minsig_rfc6979") == 0 {
+		// -minsig needs a fresh nonce for every attempt: together with -rfc6979 the wallet refuses (it used to hang)
+		c.MinSig = true
 	}
 
 	mode := 19 - rapid.IntRange(0, 19).Draw(t, "mode") // (rapid favours small numbers: keep -send the common case)
